@@ -215,6 +215,122 @@ def consistent_path_exists(f: Func, start: int, target: int, avoid_edges=()):
     return False
 
 
+def path_without_success(f: Func, target: int, test_dests, start: int = 0, limit: int = 400000):
+    """Path-sensitive search: is there a path start → target on which NONE of the bool test results in `test_dests` (locals that
+    receive the result of a test call) is observed to be true?  Tracks, per path, bool locals that hold a constant or a copy /
+    negation of another local (so `ok = a(x) && b(y); if !ok { return Err }` and `matches!`-style materialised tests are followed),
+    keeps branch decisions consistent, and never takes the true branch of a decision on a test result.
+    Returns a witness list of blocks, or None when every path to `target` has seen one of the tests succeed."""
+    tests = set(test_dests)
+
+    def is_bool(l):
+        return norm(f.local_ty(l)) == "bool"
+
+    def step_env(env, dec, b):
+        env, dec = dict(env), dict(dec)
+
+        def forget(l):
+            dec.pop(l, None)
+            for k in [k for k, v in env.items() if v[0] == "a" and v[1] == l]:
+                env.pop(k)
+        for st in f.blocks[b]["stmts"]:
+            if st["k"] != "assign" or st["place"]["p"]:
+                continue
+            l = st["place"]["l"]
+            rv = st["rv"]
+            if not is_bool(l):
+                # enum values carried to a later `match`: `x = if gate { .. } else { None }; if let Some(..) = x {..}`
+                val = None
+                if rv["k"] == "agg" and rv.get("agg") == "adt" and rv.get("variant"):
+                    val = ("v", rv["variant"])
+                elif rv["k"] == "use":
+                    pl = rv["op"].get("move") or rv["op"].get("copy")
+                    if pl and not pl["p"] and env.get(pl["l"], ("",))[0] == "v":
+                        val = env[pl["l"]]
+                elif rv["k"] == "discr" and not rv["place"]["p"] and env.get(rv["place"]["l"], ("",))[0] == "v":
+                    idx = [x[0] for x in rv.get("variants", []) if x[1] == env[rv["place"]["l"]][1]]
+                    if idx:
+                        val = ("i", idx[0])
+                forget(l)
+                if val is not None:
+                    env[l] = val
+                else:
+                    env.pop(l, None)
+                continue
+            val = None
+            if rv["k"] == "use":
+                c = rv["op"].get("const")
+                if c is not None and c.get("bits") in ("0", "1"):
+                    val = ("c", c["bits"] == "1")
+                else:
+                    pl = rv["op"].get("move") or rv["op"].get("copy")
+                    if pl and not pl["p"]:
+                        val = env.get(pl["l"], ("a", pl["l"], True))
+            elif rv["k"] == "un" and rv.get("op") == "Not":
+                m = operand_local(rv["x"])
+                if m is not None:
+                    v = env.get(m, ("a", m, True))
+                    val = ("c", not v[1]) if v[0] == "c" else ("a", v[1], not v[2])
+            forget(l)
+            if val is not None and not (val[0] == "a" and val[1] == l):
+                env[l] = val
+            else:
+                env.pop(l, None)
+        t = f.blocks[b]["term"]
+        if t["k"] == "call" and not t["dest"]["p"]:
+            forget(t["dest"]["l"])
+            env.pop(t["dest"]["l"], None)
+        return env, dec
+
+    stack = [(start, frozenset(), frozenset(), (start,))]
+    seen = set()
+    while stack:
+        b, envf, decf, path = stack.pop()
+        if len(seen) > limit:
+            return [start]          # search budget exhausted: fail closed (treated as "a path may exist")
+        if (b, envf, decf) in seen:
+            continue
+        seen.add((b, envf, decf))
+        if b == target:
+            return list(path)
+        env, dec = step_env(dict(envf), dict(decf), b)
+        t = f.blocks[b]["term"]
+        succs = list(f.succ[b])
+        if t["k"] == "call":
+            succs = [x for x in succs if x == t.get("target")] or succs
+        if t["k"] == "switch" and norm(t.get("dty", "")) == "bool":
+            d = operand_local(t["discr"])
+            zero = [x[1] for x in t["targets"] if x[0] == "0"]
+            if d is not None and zero:
+                v = env.get(d, ("a", d, True))
+                for s_ in succs:
+                    taken = s_ != zero[0]
+                    if v[0] == "c":
+                        if taken != v[1]:
+                            continue
+                        stack.append((s_, frozenset(env.items()), frozenset(dec.items()), path + (s_,)))
+                        continue
+                    r, pol = v[1], v[2]
+                    actual = taken if pol else not taken
+                    if r in dec and dec[r] != actual:
+                        continue
+                    if r in tests and actual:
+                        continue
+                    d2 = dict(dec)
+                    d2[r] = actual
+                    stack.append((s_, frozenset(env.items()), frozenset(d2.items()), path + (s_,)))
+                continue
+        if t["k"] == "switch" and norm(t.get("dty", "")) != "bool":
+            d = operand_local(t["discr"])
+            v = env.get(d) if d is not None else None
+            if v is not None and v[0] == "i":
+                tgt = [x[1] for x in t["targets"] if str(x[0]) == str(v[1])]
+                succs = tgt or [t["otherwise"]]
+        for s_ in succs:
+            stack.append((s_, frozenset(env.items()), frozenset(dec.items()), path + (s_,)))
+    return None
+
+
 def call_result_edges(f: Func, block: int):
     """Branch edges controlled by the bool result of the call terminating `block`."""
     t = f.blocks[block]["term"]
